@@ -498,6 +498,13 @@ def main():
             judge(j, st if "panic" in st else r, "blueprint-apply")
         else:
             judge(j, r, "loader")
+    if not quick:
+        # sanitizer lanes: Miri on the flat decoder fed mutants (manual bit arithmetic),
+        # valgrind memcheck on BLS point decoding of attacker bytes
+        import lanes
+
+        lanes.miri(chk, "C20", "decode", [chk.seed * 100 + i for i in range(16)], 40)
+        lanes.valgrind(chk, "C20", "ffi-decoding", lanes.ffi_jobs(Rng(chk.seed, 2020), 300))
     chk.assumptions = [
         "modest input = at most 16 KiB and nesting depth at most 1024; stacks: 8 MiB (UPLC/JSON paths, the CLI main thread) and 2 MiB (Aiken parser/formatter on a rayon worker)",
         "a watchdog timeout alone is inconclusive; non-termination-in-practice is decided only from a CPU-time growth series (>= 4 consecutive doublings)",
